@@ -3,6 +3,7 @@ package verifmc
 import (
 	"bytes"
 	"fmt"
+	"sync"
 )
 
 // Decoder-canonicity runner, added for C09; additive, nothing else depends on it.
@@ -22,6 +23,7 @@ import (
 type DecCase struct {
 	Name, Class string
 	Data        []byte
+	Base        []byte // the valid encoding this case was derived from (nil: DecSpec.DefaultBase)
 }
 
 type DecResult struct {
@@ -46,7 +48,17 @@ type DecSpec struct {
 	// AcceptOnly (optional) runs the decoder alone. When Lib panics it tells a panic of the
 	// decoder (left to C10) from a panic of the re-serialisation of a value the decoder let in.
 	AcceptOnly func(in []byte) bool
-	MustAccept func(class string) bool // nil: class "valid-lib"
+	MustAccept func(class string) bool // nil: classes "valid-lib" and "special-lib"
+	// Seq (optional) decodes first and then second into the SAME decoder object and describes
+	// the outcome of the second decode. With it every case is also run as (base, case) - judged
+	// exactly like a fresh decode of the case: a reused receiver must not let stale state of the
+	// earlier value leak into the acceptance test - and as (case, base), which must give what a
+	// fresh decode of base gives.
+	Seq         func(first, second []byte) DecResult
+	DefaultBase []byte
+	ExtraBases  [][]byte // further valid strings (e.g. of another format of the same decoder) every case is sequenced with
+	// MustAcceptWhy replaces the default description of a refused must-accept case.
+	MustAcceptWhy string
 }
 
 type decOut struct {
@@ -56,13 +68,41 @@ type decOut struct {
 	res      DecResult
 	ora      DecOracle
 	haveOra  bool
+	seqRan   bool
+	seq      []seqOut // reused receiver, one per base
+}
+
+type seqOut struct {
+	seqP1, seqP2     bool
+	after, baseAfter DecResult
+	baseFresh        DecResult
+	base             []byte
 }
 
 // CheckDecoder runs one DecSpec. It returns the number of accepted inputs.
 func (r *Run) CheckDecoder(s DecSpec) int {
 	must := s.MustAccept
 	if must == nil {
-		must = func(c string) bool { return c == "valid-lib" }
+		must = func(c string) bool { return c == "valid-lib" || c == "special-lib" }
+	}
+	var freshMu sync.Mutex
+	fresh := map[string]DecResult{}
+	freshOf := func(base []byte) DecResult {
+		freshMu.Lock()
+		v, ok := fresh[string(base)]
+		freshMu.Unlock()
+		if ok {
+			return v
+		}
+		in := make([]byte, len(base))
+		copy(in, base)
+		if p, _ := Try(func() { v = s.Lib(in) }); p {
+			v = DecResult{}
+		}
+		freshMu.Lock()
+		fresh[string(base)] = v
+		freshMu.Unlock()
+		return v
 	}
 	outs := make([]decOut, len(s.Cases))
 	ParallelFor(len(s.Cases), func(i int) {
@@ -85,10 +125,31 @@ func (r *Run) CheckDecoder(s DecSpec) int {
 				o.res = DecResult{Accepted: true, Note: "accepted-value-makes-the-encoder-panic"}
 			}
 		}
-		if o.panicked {
+		if s.Seq != nil {
+			base := c.Base
+			if base == nil {
+				base = s.DefaultBase
+			}
+			for _, base := range append([][]byte{base}, s.ExtraBases...) {
+				if base == nil || bytes.Equal(base, c.Data) {
+					continue
+				}
+				q := seqOut{base: base}
+				if q.baseFresh = freshOf(base); !q.baseFresh.Accepted {
+					continue
+				}
+				cp := func(b []byte) []byte { d := make([]byte, len(b)); copy(d, b); return d }
+				q.seqP1, _ = Try(func() { q.after = s.Seq(cp(base), cp(c.Data)) })
+				q.seqP2, _ = Try(func() { q.baseAfter = s.Seq(cp(c.Data), cp(base)) })
+				r.Eval(2)
+				o.seq = append(o.seq, q)
+				o.seqRan = true
+			}
+		}
+		if o.panicked && !o.seqRan {
 			return
 		}
-		if o.res.Accepted || s.RefAll {
+		if (!o.panicked && o.res.Accepted) || s.RefAll || seqAccepted(o.seq) {
 			o.ora = s.Ref(c.Data)
 			o.haveOra = true
 		}
@@ -112,8 +173,11 @@ func (r *Run) CheckDecoder(s DecSpec) int {
 			r.Count("rejected", 1)
 			r.Outcome(c.Class + ":rejected")
 			if must(c.Class) {
-				r.Violation(fmt.Sprintf("%s|%s|rejects-own-encoding|%s", r.Prop, s.Entry, c.Class), id,
-					"an encoding produced by the library itself is refused: "+Hex(c.Data), replay)
+				why := "an encoding produced by the library itself is refused"
+				if s.MustAcceptWhy != "" && c.Class != "valid-lib" && c.Class != "special-lib" {
+					why = s.MustAcceptWhy
+				}
+				r.Violation(fmt.Sprintf("%s|%s|rejects-own-encoding|%s", r.Prop, s.Entry, c.Class), id, why+": "+Hex(c.Data), replay)
 			}
 			if o.haveOra && o.ora.Member {
 				r.Count("rejected_canonical_member", 1)
@@ -147,6 +211,67 @@ func (r *Run) CheckDecoder(s DecSpec) int {
 			r.Violation(fmt.Sprintf("%s|%s|%s|%s", r.Prop, s.Entry, o.res.Note, c.Class), id,
 				o.res.Note+" on input "+Hex(c.Data), replay)
 		}
+		for qi := range o.seq {
+			q := &o.seq[qi]
+			r.Count("reused_receiver_cases", 1)
+			rp := map[string]string{"entry": s.Entry, "case": c.Name, "class": c.Class, "input": FullHex(c.Data), "decoded_before_into_same_object": FullHex(q.base)}
+			switch {
+			case q.seqP1:
+				r.Count("panics_left_to_C10", 1)
+			case q.after.Accepted:
+				r.Count("reused_accepted", 1)
+				switch {
+				case !o.panicked && o.res.Accepted:
+					// the fresh decode was judged above; here only a difference from it matters
+					if !bytes.Equal(q.after.Reenc, o.res.Reenc) || !bytes.Equal(q.after.Point, o.res.Point) {
+						rp["reencoded"], rp["fresh_reencoded"] = FullHex(q.after.Reenc), FullHex(o.res.Reenc)
+						r.Violation(fmt.Sprintf("%s|%s|reused-receiver:differs-from-fresh-decode|%s", r.Prop, s.Entry, c.Class), id,
+							fmt.Sprintf("decoding %s into an object that holds another valid value gives %s, a fresh object gives %s", Hex(c.Data), Hex(q.after.Reenc), Hex(o.res.Reenc)), rp)
+					}
+				case !o.ora.Member:
+					rp["reencoded"] = FullHex(q.after.Reenc)
+					r.Violation(fmt.Sprintf("%s|%s|reused-receiver:accepted:%s|%s", r.Prop, s.Entry, o.ora.Reason, c.Class), id,
+						fmt.Sprintf("a decoder object that already holds a valid value accepts a string that is not the canonical encoding of a group member (%s): %s re-encodes to %s",
+							o.ora.Reason, Hex(c.Data), Hex(q.after.Reenc)), rp)
+				case !bytes.Equal(q.after.Reenc, c.Data):
+					rp["reencoded"] = FullHex(q.after.Reenc)
+					r.Violation(fmt.Sprintf("%s|%s|reused-receiver:reencode-differs|%s", r.Prop, s.Entry, c.Class), id,
+						fmt.Sprintf("decoded into a reused object, %s re-serialises to %s", Hex(c.Data), Hex(q.after.Reenc)), rp)
+				case q.after.Point != nil && o.ora.Point != nil && !bytes.Equal(q.after.Point, o.ora.Point):
+					r.Violation(fmt.Sprintf("%s|%s|reused-receiver:wrong-value|%s", r.Prop, s.Entry, c.Class), id,
+						fmt.Sprintf("decoded into a reused object, %s gives %s, the encoding denotes %s", Hex(c.Data), Hex(q.after.Point), Hex(o.ora.Point)), rp)
+				}
+				if q.after.Note != "" && (o.panicked || !o.res.Accepted || o.res.Note != q.after.Note) {
+					r.Violation(fmt.Sprintf("%s|%s|reused-receiver:%s|%s", r.Prop, s.Entry, q.after.Note, c.Class), id, q.after.Note+" on input "+Hex(c.Data), rp)
+				}
+			default:
+				if !o.panicked && o.res.Accepted {
+					r.Count("reused_rejects_what_fresh_accepts", 1)
+				}
+				if !o.panicked && o.res.Accepted && must(c.Class) {
+					r.Violation(fmt.Sprintf("%s|%s|reused-receiver:rejects-own-encoding|%s", r.Prop, s.Entry, c.Class), id,
+						"a string accepted by a fresh decoder object is refused by one that holds another valid value: "+Hex(c.Data), rp)
+				}
+			}
+			switch {
+			case q.seqP2:
+				r.Count("panics_left_to_C10", 1)
+			case !q.baseAfter.Accepted || !bytes.Equal(q.baseAfter.Reenc, q.baseFresh.Reenc) || !bytes.Equal(q.baseAfter.Point, q.baseFresh.Point):
+				rp2 := map[string]string{"entry": s.Entry, "case": c.Name, "class": c.Class, "decoded_first": FullHex(c.Data), "then_valid": FullHex(q.base),
+					"got": FullHex(q.baseAfter.Reenc), "fresh": FullHex(q.baseFresh.Reenc)}
+				r.Violation(fmt.Sprintf("%s|%s|reused-receiver:valid-after-other-differs|%s", r.Prop, s.Entry, c.Class), id,
+					fmt.Sprintf("decoding the valid %s into an object that first saw %s does not give what a fresh decode gives", Hex(q.base), Hex(c.Data)), rp2)
+			}
+		}
 	}
 	return accepted
+}
+
+func seqAccepted(qs []seqOut) bool {
+	for _, q := range qs {
+		if !q.seqP1 && q.after.Accepted {
+			return true
+		}
+	}
+	return false
 }
